@@ -210,12 +210,22 @@ Proof.
 Qed.
 End Values.
 
-(* the fused path of ckks_dot_product_ct still places the products with max(effective_k):  c + log_budget' is not
-   log_budget(a) + log_budget(b) for mixed lists (known class) *)
-Lemma dot_ct_scale_refuted :
-  exists (B : Z) (d x y : ct) (m : meta) (sz : Z) (c : Z),
-    comp_step true B CDotCt d [x; x] [y; y] = Done m sz [c] /\ c + lb m <> lb (cm x) + lb (cm y).
+(* the fused path of ckks_dot_product_ct (>= 2 terms, one log_delta per list): all products are formed from the
+   inputs rescaled to the smallest budget of their list, with one convolution offset c such that
+   c + log_budget' = min log_budget(a-list) + min log_budget(b-list)   (repaired in 18a4236) *)
+Lemma dot_ct_fused_offset (chk : bool) (B : Z) (d x0 y0 : ct) (q : ct * ct) (rest : list (ct * ct)) (xs ys : list ct)
+      (m : meta) (sz : Z) (sh : list Z) :
+  combine xs ys = (x0, y0) :: q :: rest ->
+  (zlen xs =? 0) || negb (zlen xs =? zlen ys) = false ->
+  forallb (fun c => ld_of c =? ld_of x0) xs && forallb (fun c => ld_of c =? ld_of y0) ys = true ->
+  comp_step chk B CDotCt d xs ys = Done m sz sh ->
+  fold_right Z.add 0 sh + lb m = min_over lb_of xs + min_over lb_of ys /\ ld m = Z.min (ld_of x0) (ld_of y0).
 Proof.
-  exists 19, (Ct (Meta 0 0) 8), (Ct (Meta 30 90) 7), (Ct (Meta 20 110) 7), (Meta 20 60), 8, 130.
-  split; [ vm_compute; reflexivity | cbn; lia ].
+  intros Hc Hlen Hu. unfold comp_step, comp_m, dot_ct. rewrite Hlen, Hc, Hu. cbn [negb].
+  destruct d as [[dl db] ds]. unfold ld_of.
+  cbv beta iota zeta delta [acc_fits ssub eff maxk bind ret fail panic set_lb set_ld shift csub csize app].
+  repeat (match goal with
+          | |- context [if ?c then _ else _] => let E := fresh "E" in destruct c eqn:E
+          end; cbv beta iota zeta delta [app]).
+  all: intros H; try discriminate H; injection H as <- <- <-; cbn [ld lb fold_right]; split; lia.
 Qed.
